@@ -11,7 +11,7 @@ LEVEL = "exploration"
 SHARDS = {"quick": 8, "thorough": 16}
 RULE = (
     "streams of <= 40 def*/set*/delProperty/message/ping/getProperties messages over a small universe (3 device names x 3 property "
-    "names whose kind varies x 4 element names) in canonical or foreign XML spelling; some messages are verbatim repeats of earlier "
+    "names whose kind varies x 4 element names - as they are, or renamed as a whole to names with glob characters and blanks, or to Latin-1 names sent as raw bytes -) in canonical or foreign XML spelling; some messages are verbatim repeats of earlier "
     "ones, some updates are aimed at an earlier definition (same device, property, kind, subset of its elements), and BLOB elements "
     "may declare a size that is that of uncompressed data (.z) or contradicts the payload (then the client may take it or leave it, "
     "but must not choke on it); in 'direct' the application also writes (assign + submit) at arbitrary positions, which must leave the "
@@ -161,7 +161,7 @@ def check_stream(case):
         ref = refclient.RefClient()
         data = b""
         for it in case["items"] + [{"spec": SENTINEL, "choices": None}]:
-            data += streams.to_wire(it)
+            data += streams.to_wire(it, latin1=case.get("rename") == 3)
             ref.apply(it["spec"])
         frag = case.get("frag") or [1024]
         i = k = 0
@@ -196,7 +196,7 @@ direct_case = st.fixed_dictionaries({
     "writes": st.lists(st.fixed_dictionaries({"at": st.integers(0, 40), "k": st.integers(0, 30), "submit": st.booleans()}), max_size=3),
     "rename": st.sampled_from([0, 0, 0, 1, 2]),
 })
-stream_case = st.fixed_dictionaries({"rename": st.sampled_from([0, 0, 0, 1, 2]), "items": streams.stream(25), "frag": st.lists(st.sampled_from([1, 2, 3, 7, 64, 1024]), min_size=1, max_size=4), "for_blobs": st.booleans()})
+stream_case = st.fixed_dictionaries({"rename": st.sampled_from([0, 0, 0, 1, 2, 3, 3]), "items": streams.stream(25), "frag": st.lists(st.sampled_from([1, 2, 3, 7, 64, 1024]), min_size=1, max_size=4), "for_blobs": st.booleans()})
 
 SUBCHECKS = {"direct": check_direct, "stream": check_stream}
 
